@@ -511,6 +511,40 @@ def case_rect(ctx, mshape, sub, H, W, box, anchors, regions, mask=None, span=8.0
     hx.run_body(ctx, body_rect, inputs, kw, tol=TOLS, validate_every=8, groups=lambda k: "e2e" if k.startswith("e2e") else None)
 
 
+def body_neighbors(inp, **_):
+    """rectangular neighbour lists = 4-connectivity, symmetric (pure index code: the shape is the only input)"""
+    import autoarray as aa
+    H, W = int(inp["shape"][0]), int(inp["shape"][1])
+    P = H * W
+    A, E = {}, {}
+    mesh = hx.attempt(lambda: aa.Mesh2DRectangular.overlay_grid(shape_native=(H, W), grid=np.array([[0.0, 0.0], [1.0, 2.0], [0.5, -1.0]])))
+    nb = mesh if isinstance(mesh, hx.Raised) else hx.attempt(lambda: (np.asarray(mesh.neighbors), np.asarray(mesh.neighbors.sizes)))
+    if isinstance(nb, hx.Raised):
+        return {"neighbors": nb}, {"neighbors": "no exception"}
+    arr, sizes = nb
+    A["neighbors_shape"], E["neighbors_shape"] = [list(arr.shape), list(sizes.shape)], [[P, 4], [P]]
+    if A["neighbors_shape"] != E["neighbors_shape"]:
+        return A, E
+    got = [sorted(int(v) for v in arr[k][: int(sizes[k])]) for k in range(P)]
+    want = [sorted(rr * W + cc for (rr, cc) in ((k // W - 1, k % W), (k // W + 1, k % W), (k // W, k % W - 1), (k // W, k % W + 1))
+                   if 0 <= rr < H and 0 <= cc < W) for k in range(P)]
+    A["neighbors_are_4_connectivity"], E["neighbors_are_4_connectivity"] = got, want
+    A["neighbors_symmetric"] = all(k in got[j] for k in range(P) for j in got[k] if 0 <= j < P)
+    E["neighbors_symmetric"] = True
+    A["padding_is_minus_one"] = all(int(v) == -1 for k in range(P) for v in arr[k][int(sizes[k]):])
+    E["padding_is_minus_one"] = True
+    return A, E
+
+
+def case_neighbors(ctx, lo, hi):
+    H, W = V.integer("H"), V.integer("W")
+    ctx.assume(z3.And(H.t >= lo, H.t <= hi, W.t >= lo, W.t <= hi))
+    Hc, Wc = ctx.concretize_int(H.t), ctx.concretize_int(W.t)
+    ctx.set_case(shape=[Hc, Wc])
+    hx.run_body(ctx, body_neighbors, {"shape": [Hc, Wc]}, {}, validate_every=0)
+    ctx.twin()
+
+
 # --------------------------------------------------------------------------------------------- Delaunay meshes
 
 class _DelaunayStub:
@@ -786,7 +820,7 @@ def case_tables(ctx, sub, K, P, sizes, mode="fork", distinct=False):
         hx.run_body(ctx, body_tables, {"idx": idx.astype(int), "w": w}, kw, tol=None, validate_every=64)
 
 
-BODIES = {"case_rect": body_rect, "case_del": body_del, "case_tables": body_tables, "case_overlay": body_overlay}
+BODIES = {"case_rect": body_rect, "case_del": body_del, "case_tables": body_tables, "case_overlay": body_overlay, "case_neighbors": body_neighbors}
 
 
 
@@ -868,6 +902,8 @@ def cases(tier):
         ]
     for c, o in tb:
         out.append(("case_tables", c, o) if o else ("case_tables", c))
+    # --- by-product (no real-valued input exists): rectangular neighbour lists for every shape in the range, shapes by forking
+    out.append(("case_neighbors", {"lo": 3, "hi": 6 if q else 10}))
     return out
 
 
@@ -877,7 +913,7 @@ def replay(cand):
     case = dict(cand["case"])
     if "mask" in case:
         kw["mask"] = case["mask"]
-    for k in ("mshape", "anchors", "regions", "plan", "span", "mode", "distinct"):
+    for k in ("mshape", "anchors", "regions", "plan", "span", "mode", "distinct", "lo", "hi"):
         kw.pop(k, None)
     if cand["case_fn"] == "case_rect":
         kw.pop("ext", None)
